@@ -29,34 +29,38 @@ class FeedbackFieldWrapper:
     """
     Wraps an individual field within a Feedback message.
 
+    The wrapper's own state is kept under private names, so that ``{field.key}``,
+    ``{field.value}`` or ``{field.formatter}`` in a template reach the attribute of
+    the field's value like any other attribute does.
+
     Args:
         key (str): The name of the field.
         value (Any): The value to interpolate into the message.
         formatter (Formatter): The formatter to use from the report.
     """
     def __init__(self, key, value, formatter):
-        self.key = key
-        self.value = value
-        self.formatter = formatter
+        self._wrapped_key = key
+        self._wrapped_value = value
+        self._wrapped_formatter = formatter
 
     def __getattr__(self, key):
-        return FeedbackFieldWrapper(self.key, getattr(self.value, key), self.formatter)
+        return FeedbackFieldWrapper(self._wrapped_key, getattr(self._wrapped_value, key), self._wrapped_formatter)
 
     def __getitem__(self, index):
-        return FeedbackFieldWrapper(self.key, self.value[index], self.formatter)
+        return FeedbackFieldWrapper(self._wrapped_key, self._wrapped_value[index], self._wrapped_formatter)
 
     def __repr__(self):
-        return repr(self.value)
+        return repr(self._wrapped_value)
 
     def __str__(self):
-        return str(self.value)
+        return str(self._wrapped_value)
 
     def __format__(self, format_spec):
-        value = str(self.value)
-        for formatter_name in self.formatter.available:
+        value = str(self._wrapped_value)
+        for formatter_name in self._wrapped_formatter.available:
             if format_spec.endswith(formatter_name):
                 format_spec = chomp_spec(format_spec, formatter_name)
-                value = getattr(self.formatter, formatter_name)(self.value)
+                value = getattr(self._wrapped_formatter, formatter_name)(self._wrapped_value)
                 break
         return value.__format__(format_spec)
 
